@@ -422,6 +422,15 @@ def histories(ctx):
             if ev["a"] == "reload" and kind == "uslp":
                 w.apply({"a": "framelen"})
                 yield {"op": "ev", "ev": {"a": "framelen"}, "obs": outcome(lambda: w.observe())}
+            if ev["a"] == "set" and rng.random() < 0.04:
+                # the setter is used 255 (or 511) times with other values first - no pack() in between - and then with the value
+                # of the event: 256 / 512 setter calls between two pack() calls; only the last one counts
+                others = [x for x in (rnd_event(rng, kind) for _ in range(12)) if x["a"] == "set" and x.get("f") == ev.get("f")][:2]
+                if others:
+                    n = rng.choice([256, 256, 512])
+                    res = outcome(lambda: [w.apply(others[i % len(others)]) for i in range(n - 1)])
+                    if isinstance(res, dict) and "exc" in res:
+                        break
             obs = outcome(lambda: (w.apply(ev), w.observe())[1])
             yield {"op": "ev", "ev": ev, "obs": obs}
             if "exc" in obs:
